@@ -316,3 +316,46 @@ def make(cfg, select, known=()):
 
     body.on_abort = on_abort
     return body
+
+
+@register("prop_ties")
+def make_ties(cfg):
+    """C15: the result of a filtering call does not depend on how argsort breaks ties (NumPy's introsort and Numba's
+    quicksort are both unstable and need not agree): any sorting permutation vs the stable one, same symbolic box"""
+    alg, n = cfg["alg"], cfg["n"]
+    B = VAL_B
+
+    def body(E):
+        P = propagators_module()
+        fn = P.COMPUTE_DOMAINS_FCTS[alg_index(alg)]
+        lo = [z3.Int(f"lo{i}") for i in range(n)]
+        hi = [z3.Int(f"hi{i}") for i in range(n)]
+        for i in range(n):
+            E.solver.add(lo[i] <= hi[i], lo[i] >= -B, hi[i] <= B)
+        pz = mk_params(E, cfg["params"], B)
+        E.solver.add(contract(cfg, lo, hi, pz))
+        par = core.array([SymInt(p) if not isinstance(p, int) else p for p in pz], dtype=DType("int32"))
+
+        def run(all_ties):
+            FLAGS.argsort_all_ties = all_ties
+            dom = SArray([SymInt(v) for pair in zip(lo, hi) for v in pair], (n, 2), dtype="int32")
+            st = int(fn(dom, par))
+            return st, [(as_z3int(o[0]), as_z3int(o[1])) for o in dom.tolist()]
+
+        try:
+            st1, out1 = run(True)
+            st2, out2 = run(False)
+        except Obligation:
+            E.acc.count("obligation")
+            return
+        finally:
+            FLAGS.argsort_all_ties = True
+        E.acc.count(f"status:{st1}/{st2}")
+        bad = z3.BoolVal(st1 != st2)
+        if st1 == st2 and st1 != 0:
+            bad = OR([z3.Or(a != c, b != d) for (a, b), (c, d) in zip(out1, out2)])
+        if E.query(bad):
+            m = E.model()
+            E.acc.violation(dict(prop="C15", kind="result-depends-on-sort-tie-order", alg=alg, n=n, cls=None, harness="prop", box=[[E.ev(m, a), E.ev(m, b)] for a, b in zip(lo, hi)], params=[E.ev(m, zi(p)) for p in pz], any_order=[st1, [[E.ev(m, a), E.ev(m, b)] for a, b in out1]], stable_order=[st2, [[E.ev(m, a), E.ev(m, b)] for a, b in out2]], modes=["interpreted"]))
+
+    return body
